@@ -22,13 +22,14 @@ pub fn alphabet(thorough: bool) -> Vec<(&'static str, &'static str)> {
         ("nested-block-comment", "/* a /* b */ c */"),
         ("tight-nested-block-comment", "/*/* c */*/"),
         ("empty-block-comment", "/**/"),
+        ("block-comment-with-stars", "/** c **/"),
+        ("star-only-block-comment", "/***/"),
         ("empty", ""),
     ];
     if thorough {
         v.extend([
             ("spaced-block-comment", " /* c */ "),
             ("multi-line-block-comment", "/* a\n b */"),
-            ("block-comment-with-stars", "/** c **/"),
             ("non-ascii-block-comment", "/* ü€ */"),
             ("block-comment-containing-dashes", "/* a -- b */"),
             ("line-comment-containing-block-open", "-- /* c\n"),
